@@ -94,6 +94,15 @@ func Add(a, b Term) Term {
 	if ok2 && y == 0 {
 		return a
 	}
+	// (+ (+ X c1) c2) -> (+ X c1+c2)
+	if ok2 && strings.HasPrefix(a.S, "(+ ") {
+		body := a.S[3 : len(a.S)-1]
+		e1 := sexprEnd(body, 0)
+		rest := strings.TrimSpace(body[e1:])
+		if c1, ok := (Term{rest, SInt}).IsLit(); ok && sexprEnd(body, e1) == len(body) {
+			return Add(Term{strings.TrimSpace(body[:e1]), SInt}, IntLit(c1+y))
+		}
+	}
 	return App(SInt, "+", a, b)
 }
 
@@ -381,9 +390,7 @@ func Select(arr, idx Term) Term {
 		if i == idx.S {
 			return Term{v, elemSortOfArray(arr.Sort)}
 		}
-		x, ok1 := Term{i, SInt}.IsLit()
-		y, ok2 := idx.IsLit()
-		if ok1 && ok2 && x != y {
+		if knownDistinct(i, idx.S) {
 			cur = Term{a, arr.Sort}
 			continue
 		}
@@ -451,3 +458,46 @@ func Idx(off, i Term) Term {
 }
 
 const idxAxiom = "(declare-fun idx (Int Int) Int)\n(assert (forall ((o!x Int) (i!x Int)) (! (= (idx o!x i!x) (+ o!x i!x)) :pattern ((idx o!x i!x)))))\n"
+
+// allocParts splits "alloc0", "(+ alloc0 3)", "alloc!7" into (base, offset).
+func allocParts(s string) (string, int64, bool) {
+	if strings.HasPrefix(s, "alloc") && !strings.ContainsAny(s, " (") {
+		return s, 0, true
+	}
+	if strings.HasPrefix(s, "(+ alloc") && strings.HasSuffix(s, ")") {
+		f := strings.Fields(s[3 : len(s)-1])
+		if len(f) == 2 {
+			if n, err := strconv.ParseInt(f[1], 10, 64); err == nil {
+				return f[0], n, true
+			}
+		}
+	}
+	return "", 0, false
+}
+
+// knownDistinct reports whether two index terms certainly denote different values:
+// different literals; references allocated by the function at different offsets from the same
+// allocation counter; or an allocated reference against an input/global reference
+// (every input reference is below the entry value of the allocation counter).
+func knownDistinct(a, b string) bool {
+	x, ok1 := Term{a, SInt}.IsLit()
+	y, ok2 := Term{b, SInt}.IsLit()
+	if ok1 && ok2 {
+		return x != y
+	}
+	ba, oa, isA := allocParts(a)
+	bb, ob, isB := allocParts(b)
+	if isA && isB {
+		return ba == bb && oa != ob
+	}
+	isInput := func(s string, lit bool) bool {
+		return lit || (strings.HasPrefix(s, "in_") && !strings.ContainsAny(s, " ("))
+	}
+	if isA && isInput(b, ok2) {
+		return true
+	}
+	if isB && isInput(a, ok1) {
+		return true
+	}
+	return false
+}
